@@ -186,7 +186,7 @@ func vfC10EncRun(t *testing.T, dir string, p vfC10EncParams) (violation string, 
 		t.Fatalf("VERIF-INCONCLUSIVE DoT dial: %v", err)
 	}
 	warm := stub.calls.Load()
-	var frames, streamsOK, streamsEmpty, hitStreams atomic.Int64
+	var frames, streamsOK, streamsEmpty, hitStreams, slowStreams atomic.Int64
 	var wg sync.WaitGroup
 	for j := 0; j < p.DoTConns; j++ {
 		wg.Add(1)
@@ -231,7 +231,11 @@ func vfC10EncRun(t *testing.T, dir string, p vfC10EncParams) (violation string, 
 				for q := 0; q < nq; q++ {
 					body, err := readFrame(c, 2*time.Second)
 					if err != nil {
-						report("%s: burst %d: reply %d of %d never arrived whole (%v)", who, b, q, nq, err)
+						if ne, ok := err.(net.Error); ok && ne.Timeout() {
+							slowStreams.Add(1) // lateness is not misdelivery
+							return
+						}
+						report("%s: burst %d: the stream ended before reply %d of %d had arrived whole (%v)", who, b, q, nq, err)
 						return
 					}
 					if _, bad := vfC10Check(who, body, map[uint16]string{uint16(1000 + q): names[q]}); bad != "" {
@@ -313,7 +317,7 @@ func vfC10EncRun(t *testing.T, dir string, p vfC10EncParams) (violation string, 
 		}(qc)
 	}
 	wg.Wait()
-	stats = map[string]int64{"dot-frames": frames.Load(), "doq-streams-answered": streamsOK.Load(), "doq-streams-empty": streamsEmpty.Load(), "doq-hit-streams": hitStreams.Load(), "handler-calls": stub.calls.Load() - warm}
+	stats = map[string]int64{"dot-frames": frames.Load(), "doq-streams-answered": streamsOK.Load(), "doq-streams-empty": streamsEmpty.Load(), "doq-hit-streams": hitStreams.Load(), "dot-read-timeouts": slowStreams.Load(), "handler-calls": stub.calls.Load() - warm}
 	if v := viol.Load(); v != nil {
 		violation = *v
 	}
